@@ -20,6 +20,9 @@ CLAIMED = {
  "C14": ("seqmc+schedmc", "exhaustive operation-sequence enumeration on the real queue / EventLoop against a reference deque and FIFO/once/priority/deferral invariants; preemption-bounded schedule enumeration for concurrent producers",
          "Queue: every push/pop sequence of length <= 2c+4 for capacities 1..4 (6 thorough) against a drop-oldest deque. EventLoop: every operation sequence to depth 6 (7 thorough) over 15 operations (add, defer, register plain/priority/run-in-add/adding/unregistering handlers, unregister incl. stale double calls, tick) on capacities 64 and 2; overflow reports compared with the oldest pending events.",
          "Handler order inside one priority class and handlers (un)registered during the dispatch of the same event are unspecified by the property and treated as don't-care.", "§4 C14"),
+ "C08": ("seqmc", "explicit-state search over timeout-message sequences on a real wired Synchronizer (successor = replay on a fresh replica + 1 message), canonical-state merging, oracle = per-view set of correctly signed senders",
+         "All sequences over an alphabet of 15-25 timeout messages (every sender x views {v0-1,v0,v0+1,v0+50}, own local timeout, relayed / wrong-view / unsigned view signatures, garbage / absent message signatures and missing QC under the aggregate rule, sync info carrying a TC) delivered to one real replica: unmerged to depth 3 (4) and with canonical-state merging to depth 5-7 (7-9 thorough), both timeout rules, replica at and ahead of the stale view, cache on/off, n=4 (n=7 thorough). Every emitted certificate is verified by all other replicas and fed to a fresh replica.",
+         "EdDSA only; the replica under test is never the next leader; repeated certificates for an already certified view are don't-care.", "§4 C08"),
 }
 PENDING = {}  # id -> reason (properties not claimed)
 
